@@ -729,3 +729,199 @@ func parseCallOf(v ssa.Value) *ssa.Call {
 	}
 	return nil
 }
+
+// ---------------------------------------------------------------------------------------
+// S3f: the pass-1 size of a far jump is one of the lengths the emitter writes
+// ---------------------------------------------------------------------------------------
+
+// intSet evaluates an integer SSA value built from constants, phis, +/- and conversions to
+// the set of values it can take; nil when something else is involved.
+func intSet(v ssa.Value, depth int, seen map[ssa.Value]bool) map[int64]bool {
+	if depth > 8 || seen[v] {
+		return nil
+	}
+	switch x := v.(type) {
+	case *ssa.Const:
+		if isIntConst(x) {
+			return map[int64]bool{x.Int64(): true}
+		}
+	case *ssa.Convert:
+		return intSet(x.X, depth+1, seen)
+	case *ssa.Phi:
+		seen[v] = true
+		out := map[int64]bool{}
+		for _, e := range x.Edges {
+			s := intSet(e, depth+1, seen)
+			if s == nil {
+				return nil
+			}
+			for k := range s {
+				out[k] = true
+			}
+		}
+		delete(seen, v)
+		return out
+	case *ssa.BinOp:
+		if x.Op == token.ADD || x.Op == token.SUB {
+			a, b := intSet(x.X, depth+1, seen), intSet(x.Y, depth+1, seen)
+			if a == nil || b == nil {
+				return nil
+			}
+			out := map[int64]bool{}
+			for i := range a {
+				for j := range b {
+					if x.Op == token.ADD {
+						out[i+j] = true
+					} else {
+						out[i-j] = true
+					}
+				}
+			}
+			return out
+		}
+	}
+	return nil
+}
+
+func ruleS3f(c *Ctx) {
+	c.doc("S3f", "every size pass 1 can assign to a far jump (JMP seg:off) is a length the emitter can write for the far form (EA + offset + selector, with or without 66h): a size the emitter never produces moves every later label")
+	// emitter side
+	emit := map[int64]bool{}
+	if f := c.L.SSAFunc("internal/codegen", "handleJcc"); f == nil {
+		c.anchorMissing("S3f", "internal/codegen.handleJcc")
+		return
+	} else if paths, ok := enumPaths(f, 5000); ok {
+		for i := range paths {
+			p := paths[i]
+			if len(p.Ret.Results) != 2 || p.contradictsConstGuard() {
+				continue
+			}
+			if e, ok := p.Ret.Results[1].(*ssa.Const); !ok || !e.IsNil() {
+				continue
+			}
+			for _, sp := range shapesWithHelpers(p, p.Ret.Results[0], 2) {
+				sh := sp.Shape
+				body := sh
+				if len(body) > 0 && body[0].Kind == bConst && body[0].C == 0x66 {
+					body = body[1:]
+				}
+				if len(body) > 0 && body[0].Kind == bConst && body[0].C == 0xEA && sh.length() > 0 {
+					emit[int64(sh.length())] = true
+				}
+			}
+		}
+	}
+	var el []int64
+	for k := range emit {
+		el = append(el, k)
+	}
+	sort.Slice(el, func(i, j int) bool { return el[i] < el[j] })
+	c.check(len(el) >= 1, "S3f", "handleJcc|far forms found", "", fmt.Sprint(el))
+	// pass-1 side: what is added to LOC on the SegmentExp branch
+	f := c.L.SSAFunc("internal/pass1", "processCalcJcc")
+	if f == nil {
+		c.anchorMissing("S3f", "internal/pass1.processCalcJcc")
+		return
+	}
+	// blocks that are only reached when the operand is a *ast.SegmentExp
+	var far []*ssa.BasicBlock
+	for _, b := range f.Blocks {
+		for _, in := range b.Instrs {
+			ta, ok := in.(*ssa.TypeAssert)
+			if !ok || !ta.CommaOk || !strings.HasSuffix(ta.AssertedType.String(), "ast.SegmentExp") {
+				continue
+			}
+			for _, r := range *ta.Referrers() {
+				if ex, ok := r.(*ssa.Extract); ok && ex.Index == 1 && ex.Referrers() != nil {
+					for _, r2 := range *ex.Referrers() {
+						if iff, ok := r2.(*ssa.If); ok {
+							far = append(far, iff.Block().Succs[0])
+						}
+					}
+				}
+			}
+		}
+	}
+	if len(far) == 0 {
+		c.anchorMissing("S3f", "processCalcJcc: case *ast.SegmentExp")
+		return
+	}
+	inFar := func(b *ssa.BasicBlock) bool {
+		for _, fb := range far {
+			if fb.Dominates(b) {
+				return true
+			}
+		}
+		return false
+	}
+	sizes := map[int64]bool{}
+	undecided := ""
+	var collect func(v ssa.Value, depth int)
+	collect = func(v ssa.Value, depth int) {
+		if depth > 6 {
+			return
+		}
+		if s := intSet(v, 0, map[ssa.Value]bool{}); s != nil {
+			for k := range s {
+				sizes[k] = true
+			}
+			return
+		}
+		// a helper that returns the size: its returns in that position
+		if rs := helperResults(v); len(rs) > 0 {
+			for _, r := range rs {
+				collect(r, depth+1)
+			}
+			return
+		}
+		if fl, ok := v.(*ssa.Field); ok { // a struct result: the field of each returned struct literal is not modelled
+			_ = fl
+		}
+		undecided = valueText(v)
+	}
+	for _, st := range storesToField(f, "internal/pass1", "Pass1", "LOC") {
+		bo, ok := st.Val.(*ssa.BinOp)
+		if !ok || bo.Op != token.ADD {
+			continue
+		}
+		add := bo.Y
+		// the value is a join of the sizes chosen in the clauses; follow the joins and keep the
+		// values that arrive from a block of the far clause
+		seenPhi := map[*ssa.Phi]bool{}
+		var walkPhi func(ph *ssa.Phi)
+		walkPhi = func(ph *ssa.Phi) {
+			if seenPhi[ph] {
+				return
+			}
+			seenPhi[ph] = true
+			for i, e := range ph.Edges {
+				if i >= len(ph.Block().Preds) {
+					continue
+				}
+				if inFar(ph.Block().Preds[i]) {
+					collect(e, 0)
+				} else if inner, ok := e.(*ssa.Phi); ok {
+					walkPhi(inner)
+				}
+			}
+		}
+		if ph, ok := add.(*ssa.Phi); ok {
+			walkPhi(ph)
+		} else if inFar(st.Block()) {
+			collect(add, 0)
+		}
+	}
+	if undecided != "" {
+		c.fail("S3f", "processCalcJcc|far size", c.L.Pos(f.Pos()), "undecided: the size added for a far jump is not a constant expression: "+undecided)
+		return
+	}
+	var sl []int64
+	for k := range sizes {
+		sl = append(sl, k)
+	}
+	sort.Slice(sl, func(i, j int) bool { return sl[i] < sl[j] })
+	c.check(len(sl) >= 1, "S3f", "processCalcJcc|far sizes found", c.L.Pos(f.Pos()), fmt.Sprint(sl))
+	for _, k := range sl {
+		c.check(emit[k], "S3f", fmt.Sprintf("processCalcJcc|far jump sized %d", k), c.L.Pos(f.Pos()), fmt.Sprintf("pass 1 can count %d bytes for a far jump; the emitter writes %v bytes for the far form and nothing else", k, el))
+	}
+}
